@@ -145,7 +145,7 @@ func runCheck(o *checkOpts) int {
 		fmt.Fprintln(os.Stderr, "no configuration for property", o.prop)
 		return 2
 	}
-	known := loadKnown(filepath.Join(o.verif, "known_findings.jsonl"))
+	known := loadKnown(filepath.Join(o.verif, "known_findings.txt"))
 	tmp, err := os.MkdirTemp("", "gowp-"+o.prop+"-")
 	if err != nil {
 		fmt.Fprintln(os.Stderr, err)
@@ -505,6 +505,9 @@ func (e *expectedFile) has(n string) bool {
 type knownSet struct{ list []KnownFinding }
 
 func loadKnown(path string) *knownSet {
+	// text file; one entry per line:
+	//   KNOWN-FINDING: property=<id> obligation=<obligation name> :: <what fails>
+	//   fixed: property=<id> <commit> <what failed>            (suppresses nothing)
 	ks := &knownSet{}
 	b, err := os.ReadFile(path)
 	if err != nil {
@@ -512,13 +515,21 @@ func loadKnown(path string) *knownSet {
 	}
 	for _, ln := range strings.Split(string(b), "\n") {
 		ln = strings.TrimSpace(ln)
-		if ln == "" || strings.HasPrefix(ln, "#") {
+		if !strings.HasPrefix(ln, "KNOWN-FINDING:") {
 			continue
 		}
-		var k KnownFinding
-		if json.Unmarshal([]byte(ln), &k) == nil {
-			ks.list = append(ks.list, k)
+		rest := strings.TrimSpace(strings.TrimPrefix(ln, "KNOWN-FINDING:"))
+		parts := strings.SplitN(rest, " :: ", 2)
+		head := parts[0]
+		what := ""
+		if len(parts) == 2 {
+			what = parts[1]
 		}
+		i := strings.Index(head, " obligation=")
+		if !strings.HasPrefix(head, "property=") || i < 0 {
+			continue
+		}
+		ks.list = append(ks.list, KnownFinding{Property: strings.TrimPrefix(head[:i], "property="), Obligation: strings.TrimSpace(head[i+len(" obligation="):]), Status: "open", What: what})
 	}
 	return ks
 }
